@@ -30,6 +30,17 @@ def lcReturned (burst : Nat) : Nat :=
       else ret
   go (3 * burst + 10) { appLeft := burst } 0
 
+/-- a Modify stream that could not be opened, then two teardown calls in a row: each returns
+(C14: "Close and Reset return without blocking"), nothing of the client is left running -/
+def openLine (rs : RibSt) (ts : List Tok) : RibSt :=
+  let rs := { rs with line := rs.line + 1, diverged := true }
+  let g := kvGet ts
+  let desc := s!"[the stream could not be opened (class {g "class"}), then {g "seq"}]"
+  let rs := rs.covr "cf.open"
+  let rs := if g "connecterr" == "1" then rs else rs.monfail "c14" s!"{desc} Connect did not return the error"
+  let rs := if g "outcome" == "'ok" then rs else rs.monfail "c14" s!"{desc} a teardown call did not return: {g "outcome"}"
+  if g "goroutines" == "0" then rs else rs.monfail "c14" s!"{desc} {g "goroutines"} goroutine(s) of the client left behind"
+
 def faultLine (rs : RibSt) (ts : List Tok) : RibSt :=
   let rs := { rs with line := rs.line + 1, diverged := true }
   let g := kvGet ts
